@@ -37,23 +37,45 @@ class CmdRig:
         return tr, len(tr.tx_bytes())
 
     def call(self, call, stats=None):
-        """Run one call; raises Violation; returns class tags."""
+        """Run one call; raises Violation; returns class tags.
+
+        The bytes the console receives are parsed as one continuous stream per connection: a call that leaves
+        a partial frame behind (e.g. a header written before its payload failed to encode) makes the *next*
+        frame unreadable for the console, which is charged to the call whose frame is damaged."""
         self.done.append(call)
         case = {"inst": self.inst, "state": self.state, "calls": list(self.done)}
 
         def bad(key, what):
             raise Violation(f"{self.cid}:{key}:{call[0]}", f"{call}: {what}", case)
 
-        exp = cmdref.expected(self.inst, self.state, call)
-        tr, pos = self.wire_pos()
-        res = self.rig.loop.call(cmdref.perform(self.rig, call))
+        wild = call[0] == "zone_temp_wild"
+        exp = ("any",) if wild else cmdref.expected(self.inst, self.state, call)
+        tr = self.rig.net.current
+        if getattr(self, "_tr", None) is not tr:
+            self._tr, self._upto = tr, len(tr.tx_bytes())
+        else:
+            # frames the client wrote on its own since the last call (error-info requests, heartbeats ...) are
+            # skipped; anything that is not a whole frame stays in front of this call's bytes
+            pre = refproto.parse_stream(self.gen, tr.tx_bytes()[self._upto:])
+            if not pre.error:
+                self._upto += pre.consumed
+        res = self.rig.loop.call(cmdref.perform(self.rig, ["zone_temp"] + call[1:] if wild else call))
         self.rig.loop.settle()
         if self.rig.net.current is not tr:
             bad("reset", "the call disturbed the connection")
-        new = tr.tx_bytes()[pos:]
+        new = tr.tx_bytes()[self._upto:]
         pr = refproto.parse_stream(self.gen, new)
+        if wild:
+            # a set-point outside the encodable range: raising (any exception) or sending is not judged here,
+            # but what it leaves on the wire is carried over to the next call
+            if not pr.error and not pr.incomplete:
+                self._upto += pr.consumed
+            self.last_frame = None
+            return ["wild"]
         if pr.error or pr.incomplete:
-            bad("framing", f"bytes written do not parse as frames: {new.hex()}")
+            bad("framing", f"the console cannot read the bytes it received since the last complete frame: {new.hex()} "
+                           f"(error={pr.error}, incomplete={pr.incomplete})")
+        self._upto += pr.consumed
         self.last_frame = pr.frames[0] if len(pr.frames) == 1 else None
         if exp[0] == "ValueError":
             if res[0] != "raise" or not isinstance(res[1], ValueError):
@@ -112,6 +134,9 @@ def calls_strategy(inst, state):
             st.tuples(z, st.integers(10 * 20, 35 * 20)).map(lambda t: ["zone_temp", t[0], t[1] / 20.0]),
             st.tuples(z, st.integers(1000, 3500)).map(lambda t: ["zone_temp", t[0], t[1] / 100.0]),
             st.tuples(z, st.integers(-5, 105)).map(lambda t: ["zone_damper", t[0], t[1]]),
+            # a set-point far outside what either protocol can encode: not judged itself, but it must not
+            # damage the frames of the calls that follow
+            st.tuples(z, st.sampled_from([-30.0, -2.0, 36.0, 50.0, 300.0])).map(lambda t: ["zone_temp_wild", t[0], t[1]]),
         ]
     return st.one_of(*opts)
 
